@@ -8,7 +8,7 @@ from glom.matching import _glom_match
 from glom.grouping import Group, GROUP
 import glom.core as gc
 
-from vkit.common import start, reach, fail, known_open, concretize, OUT, run
+from vkit.common import start, reach, fail, known_open, concretize, OUT, run, limited
 from vkit.ob import Ob
 import vkit.stubs  # noqa: F401
 
@@ -365,6 +365,30 @@ def fill_shape(outer: int, inner: int, x: int, y: int) -> bool:
     return glom(t, Fill([marker, 'a', 3]), glom_debug=True) == ['called', 'a', 3] or fail(why='fill leaf treatment')
 
 
+def fill_nested_only(outer: int, inner: int, x: int, y: int) -> bool:
+    """the outer container holds only constants plus ONE mutable container; the specs sit inside that inner container
+    (no spec is a direct member of the outer one): still every embedded spec is replaced by its value"""
+    start()
+    outer, inner = concretize(outer, 0, 3), concretize(inner, 0, 3)
+    x, y = concretize(x, 0, 2), concretize(y, 3, 4)
+    if OUT in (outer, inner, x, y):
+        return True
+    t = {'a': x, 'b': y, 'name': 'n'}
+    in_l, in_v = [([T['a'], T['b']], [x, y]), ({'k': T['a'], 'lit': 'a'}, {'k': x, 'lit': 'a'}),
+                  ([Auto('name'), 'a'], ['n', 'a']), ([('deep', [Spec(T['b'])])], [('deep', [y])])][inner]
+    if outer == 0:
+        lit, exp = ('id', in_l), ('id', in_v)
+    elif outer == 1:
+        lit, exp = ('id', ('nested', in_l), 7), ('id', ('nested', in_v), 7)
+    elif outer == 2:
+        lit, exp = ['id', in_l], ['id', in_v]
+    else:
+        lit, exp = {'id': 'id', 'in': ('t', in_l)}, {'id': 'id', 'in': ('t', in_v)}
+    got = glom(t, Fill(lit), glom_debug=True)
+    reach('fill_nested_only')
+    return _same_shape(got, exp) or fail(why='a spec nested below constant members was not evaluated', got=got, exp=exp)
+
+
 def arg_shape(site: int, outer: int, inner: int, x: int, y: int) -> bool:
     """argument positions: 0 Coalesce default, 1 Call args, 2 T-call argument, 3 S(k=...), 4 Assign value, 5 Match default,
     6 Invoke constants stay literal / specs evaluated"""
@@ -406,10 +430,16 @@ def arg_shape(site: int, outer: int, inner: int, x: int, y: int) -> bool:
 def arg_cyclic(site: int, kind: int, x: int) -> bool:
     """self-referential containers in argument position are reproduced with the same cyclic shape"""
     start()
-    t = {'a': x, 'f': (lambda v: v), 'dst': {}}
+    t = {'a': x, 'f': (lambda v: v), 'dst': {}, 'm': [x + 1, x + 2], 'i': 1}
     if kind == 0:
         lit = [T['a'], 'a']
         lit.append(lit)
+    elif kind == 3:                # a member that itself needs an argument evaluated, BEFORE the back-reference
+        lit = [T['m'][T['i']], Coalesce('zz', default=['d']), T['f'](T['a'])]
+        lit.append(lit)
+    elif kind == 4:                # no cycle: one list referenced from two places stays ONE list
+        shared = [T['a']]
+        lit = [shared, {'again': shared}]
     elif kind == 1:
         lit = {'v': T['a'], 's': 'a'}
         lit['me'] = lit
@@ -417,20 +447,27 @@ def arg_cyclic(site: int, kind: int, x: int) -> bool:
         inner = [T['a']]
         lit = {'l': inner}
         inner.append(lit)          # dict -> list -> dict cycle
-    if site == 0:
-        got = glom(t, Coalesce('zz', default=lit), glom_debug=True)
-    elif site == 1:
-        got = glom(t, T['f'](lit), glom_debug=True)
-    elif site == 2:
-        got = glom(t, (S(k=lit), S['k']), glom_debug=True)
-    else:
-        glom(t, Assign('dst.v', lit), glom_debug=True)
-        got = t['dst']['v']
+    try:
+        if site == 0:
+            got = limited(lambda: glom(t, Coalesce('zz', default=lit), glom_debug=True))
+        elif site == 1:
+            got = limited(lambda: glom(t, T['f'](lit), glom_debug=True))
+        elif site == 2:
+            got = limited(lambda: glom(t, (S(k=lit), S['k']), glom_debug=True))
+        else:
+            limited(lambda: glom(t, Assign('dst.v', lit), glom_debug=True))
+            got = t['dst']['v']
+    except RecursionError:
+        return fail(why='evaluating a self-referential argument does not terminate', kind=kind, site=site)
     reach('cyclic')
     if got is lit:
         return fail(why='the literal itself was returned, not a rebuilt structure')
     if kind == 0:
         ok = type(got) is list and len(got) == 3 and got[0] == x and got[1] == 'a' and got[2] is got
+    elif kind == 3:
+        ok = type(got) is list and len(got) == 4 and got[0] == x + 2 and got[1] == ['d'] and got[2] == x and got[3] is got
+    elif kind == 4:
+        ok = type(got) is list and got[0] == [x] and got[1] == {'again': [x]} and got[1]['again'] is got[0]
     elif kind == 1:
         ok = type(got) is dict and got['v'] == x and got['s'] == 'a' and got['me'] is got and list(got) == ['v', 's', 'me']
     else:
@@ -469,6 +506,8 @@ def obligations(tier):
         for chain in range(6):
             obs.append(Ob(step_independence, fixed={'prev': prev, 'chain': chain}, pre='0 <= nxt <= %d and -1 <= r <= 2' % (N_NEXT - 1),
                           name='step_independence_p%d_c%d' % (prev, chain), timeout=120))
+    obs.append(Ob(fill_nested_only, pre='0 <= outer <= 3 and 0 <= inner <= 3 and 0 <= x <= 2 and 3 <= y <= 4', name='fill_nested_only'))
+    obs.append(Ob(fill_nested_only, pre='0 <= outer <= 3 and 0 <= inner <= 3 and 0 <= x <= 2 and 3 <= y <= 4', twin='fill_nested_only', name='fill_nested_only'))
     for site in range(3):
         obs.append(Ob(fill_keys, fixed={'site': site}, pre='0 <= kind <= 10 and 0 <= x <= 2 and 3 <= y <= 4', name='fill_keys_s%d' % site))
     for outer in range(NCONT):
@@ -476,11 +515,11 @@ def obligations(tier):
         for site in range(7):
             obs.append(Ob(arg_shape, fixed={'outer': outer, 'site': site}, pre='0 <= inner <= 5', name='arg_shape_s%d_%s' % (site, CONT_NAMES[outer])))
     for site in range(4):
-        obs.append(Ob(arg_cyclic, fixed={'site': site}, pre='0 <= kind <= 2', name='arg_cyclic_s%d' % site))
+        obs.append(Ob(arg_cyclic, fixed={'site': site}, pre='0 <= kind <= 4', name='arg_cyclic_s%d' % site))
     obs.append(Ob(mode_extent, fixed={'root': K_TUPLE, 'c0': W_FILL}, pre=ck.format(v='c1') + ' and ' + ck.format(v='d'), twin='non_auto', name='mode_extent_tuple_Fill'))
     obs.append(Ob(mode_extent, fixed={'root': K_TUPLE, 'c0': W_FILL}, pre=ck.format(v='c1') + ' and ' + ck.format(v='d'), twin='probed', name='mode_extent_tuple_Fill'))
     obs.append(Ob(arg_shape, fixed={'outer': 1, 'site': 0}, pre='0 <= inner <= 5', twin='arg', name='arg_shape_s0_list'))
-    obs.append(Ob(arg_cyclic, fixed={'site': 0}, pre='0 <= kind <= 2', twin='cyclic', name='arg_cyclic_s0'))
+    obs.append(Ob(arg_cyclic, fixed={'site': 0}, pre='0 <= kind <= 4', twin='cyclic', name='arg_cyclic_s0'))
     obs.append(Ob(step_independence, fixed={'prev': 0, 'chain': 2}, pre='0 <= nxt <= %d and -1 <= r <= 2' % (N_NEXT - 1), twin='independent', name='step_independence_p0_c2'))
     obs.append(Ob(fill_keys, fixed={'site': 0}, pre='0 <= kind <= 10 and 0 <= x <= 2 and 3 <= y <= 4', twin='fill_keys', name='fill_keys_s0'))
     return obs
